@@ -33,7 +33,8 @@ K2 == {"none", "lit"}
 VarCfgs == [k : {"var"}, loc : {"root", "inc"}, via : {"cmd", "dep", "defer"}, task : K5, call : K2, incfile : K3, incstmt : K2, global : K5, cli : K2, os : K2]
 \* dotenv: which of the two listed files define E ("first" file wins)
 D4 == {"none", "first", "second", "both"}
-EnvCfgs == [k : {"env"}, tenv : KE, tdot : D4, genv : KE, gdot : D4, os : BOOLEAN, experiment : BOOLEAN]
+\* os: the process environment does not have E / has it with a value / has it with the EMPTY value (still "set")
+EnvCfgs == [k : {"env"}, tenv : KE, tdot : D4, genv : KE, gdot : D4, os : {"unset", "set", "empty"}, experiment : BOOLEAN]
 
 Apply(cur, kind, site) ==
   CASE kind = "none" -> cur
@@ -55,8 +56,9 @@ EnvValue(c) ==
       ent(k, n) == IF k = "sh" THEN n \o "-sh" ELSE n
       file == IF c.tenv # "none" THEN ent(c.tenv, "tenv") ELSE IF c.tdot # "none" THEN dot(c.tdot, "tdot")
               ELSE IF c.genv # "none" THEN ent(c.genv, "genv") ELSE IF c.gdot # "none" THEN dot(c.gdot, "gdot") ELSE ""
-  IN IF c.experiment THEN (IF file # "" THEN file ELSE IF c.os THEN "os" ELSE "")
-     ELSE (IF c.os THEN "os" ELSE file)
+      osval == IF c.os = "set" THEN "os" ELSE ""
+  IN IF c.experiment THEN (IF file # "" THEN file ELSE osval)
+     ELSE (IF c.os # "unset" THEN osval ELSE file)
 
 \* a second Taskfile-level variable G2: '{{.N}}-g2', declared after N: it sees N as the global level leaves it.
 \* A NAME=value of the command line replaces the value of a declared global in place; a name that the Taskfile does
